@@ -8,7 +8,7 @@ import gen
 from codecdiff import Diff, entries, build_pool
 
 PROP = "C02"
-MODULES = ["DV.Properties.C02", "DV.Properties.C02Tables"]
+MODULES = ["DV.Properties.C02", "DV.Properties.C02Tables", "DV.Properties.ConfigTie"]
 
 HDR_VALS = {
     "ver": [1, 0, 255, 2],
